@@ -11,6 +11,7 @@
 //   opensync b|u <cid> <pre>            spawn OpenStreamSync (pre=1: context already cancelled)
 //   accept b|u <cid> <pre>              spawn AcceptStream
 //   cancel <cid>                        cancel that caller's context
+//   raceopen b|u <n>                    MAX_STREAMS n and OpenStream at once (no quiescence in between)
 //   race <cid> b|u <n>                  cancel a blocked OpenStreamSync caller and deliver MAX_STREAMS n at once
 //   stream|rst|sdb|stop|msd <id>        peer frame naming stream <id>
 //   del <id>                            DeleteStream (stream completion)
@@ -268,6 +269,19 @@ func (b *bubble) exec(op string) (res string) {
 		c.cancel()
 		b.sm.HandleMaxStreamsFrame(&wire.MaxStreamsFrame{Type: typ, MaxStreamNum: protocol.StreamNum(vh.Atoi64(f[3]))})
 		res = "ok"
+	case "raceopen":
+		// MAX_STREAMS and then OpenStream at once: queued OpenStreamSync callers may or may not have run yet
+		typ := protocol.StreamTypeUni
+		if isBidi(f[1]) {
+			typ = protocol.StreamTypeBidi
+		}
+		b.sm.HandleMaxStreamsFrame(&wire.MaxStreamsFrame{Type: typ, MaxStreamNum: protocol.StreamNum(vh.Atoi64(f[2]))})
+		id, err := b.sm.OpenStream(isBidi(f[1]))
+		if err != nil {
+			res = errName(err)
+		} else {
+			res = fmt.Sprint(id)
+		}
 	case "stream", "rst", "sdb", "stop", "msd":
 		frameOp = true
 		res = errName(b.sm.HandleFrame(f[0], vh.Atoi64(f[1])))
@@ -469,7 +483,13 @@ func (rn *runner) observe(op, res string) {
 		rn.hasMap = true
 		rn.server = f[1] == "s"
 		rn.initTypes(vh.Atoi64(f[2]), vh.Atoi64(f[3]))
-	case "open":
+	case "open", "raceopen":
+		if f[0] == "raceopen" {
+			ts := rn.ts[tidx(f[1] == "b")]
+			if n := vh.Atoi64(f[2]); n > ts.peerLimit {
+				ts.peerLimit = n
+			}
+		}
 		if !strings.HasPrefix(head, "E:") && head != "PANIC" {
 			ts := rn.ts[tidx(f[1] == "b")]
 			id := vh.Atoi64(head)
@@ -559,6 +579,7 @@ func (rn *runner) observe(op, res string) {
 					if id+4 > ts.outNext {
 						ts.outNext = id + 4
 					}
+					_ = id
 				}
 			}
 		case strings.HasPrefix(w, "f=[") && len(w) > 4:
@@ -720,6 +741,10 @@ func (rn *runner) GenOp(r *vh.Rand, i int) string {
 			}
 			return rn.genFrame(r)
 		case 1:
+			if c, ok := rn.pickWaiting(r, 'o'); ok && r.Chance(50) {
+				ts := rn.ts[tidx(rn.wbidi[c])]
+				return fmt.Sprintf("raceopen %s %d", tn(rn.wbidi[c]), ts.peerLimit+r.Range(1, 3))
+			}
 			return "open " + tn(r.Bool())
 		case 2:
 			rn.nextCid++
